@@ -20,17 +20,19 @@ type fsGen struct {
 }
 
 type fsGenOpts struct {
-	symlinks bool
-	users    bool // non-admin users, chmod/chown mixes (C03)
-	views    bool // Sub views (C11)
-	enum     bool // Glob / WalkDir / existence helpers (C14)
-	files    bool // handle operations (C02)
-	unclean  bool // non-clean path forms
-	aliasing bool // bias to aliasing operands (C05)
-	relative bool
-	orefa    bool // OrefaFS: operands relative to the CURRENT directory, "/" and "" as operands, deep MkdirAll chains, fewer self-deadlocking Link operands
-	rdonly   bool // bias OpenFile to read-only opens of existing entries (wrappers whose handles are the subject: RoFS)
-	kernel   bool // histories compared with the kernel: clean paths, the root is never an operand of a mutating call, creation perms without setuid/setgid
+	symlinks  bool
+	users     bool // non-admin users, chmod/chown mixes (C03)
+	views     bool // Sub views (C11)
+	enum      bool // Glob / WalkDir / existence helpers (C14)
+	files     bool // handle operations (C02)
+	unclean   bool // non-clean path forms
+	aliasing  bool // bias to aliasing operands (C05)
+	relative  bool
+	orefa     bool   // OrefaFS: operands relative to the CURRENT directory, "/" and "" as operands, deep MkdirAll chains, fewer self-deadlocking Link operands
+	smallOnly string // … restricted to this scenario
+	small     bool   // bounded-exhaustive scenarios instead of random histories (small.go)
+	rdonly    bool   // bias OpenFile to read-only opens of existing entries (wrappers whose handles are the subject: RoFS)
+	kernel    bool   // histories compared with the kernel: clean paths, the root is never an operand of a mutating call, creation perms without setuid/setgid
 }
 
 var fsNames = []string{"a", "b", "c", "ab"} // "ab" extends "a": prefix-related sibling names
@@ -321,6 +323,16 @@ func (g *fsGen) next() string {
 		}
 		for _, q := range []string{"stat", "lstat", "readfile", "evalsymlinks", "readlink"} {
 			g.queue = append(g.queue, fmt.Sprintf(dom+" 0 %s %s", q, h(base+"/l0")))
+		}
+		if r.Bool(50) {
+			// the same number of links FOLLOWED on the way to a directory, then a last element that is itself a link:
+			// calls that do not follow it (Lstat, Readlink, Remove, Rename) have followed k links, the others k+1
+			g.queue = append(g.queue, fmt.Sprintf(dom+" 0 mkdirall %s 493", h(base+"/dd")), fmt.Sprintf(dom+" 0 writefile %s %s 420", h(base+"/dd/f"), h("F")),
+				fmt.Sprintf(dom+" 0 symlink %s %s", h("f"), h(base+"/dd/s")), fmt.Sprintf(dom+" 0 remove %s", h(base+"/end")), fmt.Sprintf(dom+" 0 symlink %s %s", h("dd"), h(base+"/end")))
+			for _, q := range []string{"lstat", "readlink", "stat", "readfile"} {
+				g.queue = append(g.queue, fmt.Sprintf(dom+" 0 %s %s", q, h(base+"/l0/s")))
+			}
+			g.queue = append(g.queue, fmt.Sprintf(dom+" 0 rename %s %s", h(base+"/l0/s"), h(base+"/l0/t")), fmt.Sprintf(dom+" 0 remove %s", h(base+"/l0/t")))
 		}
 		g.queue = append(g.queue, fmt.Sprintf(dom+" 0 removeall %s", h(base)))
 		l := g.queue[0]
@@ -620,4 +632,3 @@ func (g *fsGen) fileOp() string {
 		return fmt.Sprintf("readdirnames %d", lib.Pick(r, []int{-1, 0, 1, 2, 5}))
 	}
 }
-
